@@ -132,11 +132,12 @@ type Exec struct {
 	harness        *Harness
 	loopBound      int
 	allocLimit     int
+	allocTotal     int // bytes allocated by make since AllocLimit was set
 	monitorShared  bool
 	inInit         bool
 	concreteInputs bool
-	recording     *recorder // non-nil: shared-memory accesses become schedule events (C14)
-	concrete       Model // non-nil: concrete differential run, nondets read from here
+	recording      *recorder // non-nil: shared-memory accesses become schedule events (C14)
+	concrete       Model     // non-nil: concrete differential run, nondets read from here
 
 	instrs       int64
 	findings     []*Finding
